@@ -57,6 +57,9 @@ type streamCase struct {
 	Post     []string   `json:"post"`
 	Branches [][]string `json:"branches"`
 	X        execCfg    `json:"x"`
+	Reps     int        `json:"reps"` // > 1: materialize the SAME blueprint value (sources + flows) that many times, fresh sinks
+	Par      int        `json:"par"`  // 1: the repetitions run concurrently, else one after the other
+	Run      int        `json:"run"`  // which repetition this record is (1-based; set by the driver)
 }
 
 type result struct {
@@ -217,12 +220,39 @@ func mkSink(x execCfg) (*sinkRec, stream.Sink[int64]) {
 
 // build assembles the case into one RunnableGraph per sink.
 func build(c *streamCase) ([]stream.RunnableGraph, []*sinkRec, error) {
+	heads, err := blueprint(c)
+	if err != nil {
+		return nil, nil, err
+	}
+	graphs, recs := attach(c, heads)
+	return graphs, recs, nil
+}
+
+// attach terminates every head of a blueprint with a FRESH sink. The heads (Source values holding the
+// source and flow stage descriptions) may be attached and Run several times: the stream package promises
+// that a blueprint can be materialized repeatedly, every materialization with its own stage state.
+func attach(c *streamCase, heads []stream.Source[int64]) ([]stream.RunnableGraph, []*sinkRec) {
+	graphs := make([]stream.RunnableGraph, len(heads))
+	recs := make([]*sinkRec, len(heads))
+	for i, h := range heads {
+		rec, sk := mkSink(c.X)
+		g := h.To(sk)
+		if c.X.Fuse == 0 {
+			g = g.WithFusion(stream.FuseNone)
+		}
+		graphs[i], recs[i] = g, rec
+	}
+	return graphs, recs
+}
+
+// blueprint builds the sources, junction and flows of the case (everything but the sinks).
+func blueprint(c *streamCase) ([]stream.Source[int64], error) {
 	x := c.X
 	srcs := make([]stream.Source[int64], len(c.Srcs))
 	for i, sc := range c.Srcs {
 		s, err := chain(stream.Of(sc.In...), sc.P, x)
 		if err != nil {
-			return nil, nil, err
+			return nil, err
 		}
 		srcs[i] = s
 	}
@@ -256,35 +286,28 @@ func build(c *streamCase) ([]stream.RunnableGraph, []*sinkRec, error) {
 		n := len(c.Branches)
 		heads = stream.Partition(srcs[0], n, func(v int64) int { return int(v % int64(n)) })
 	default:
-		return nil, nil, fmt.Errorf("unknown junction %q", c.J)
+		return nil, fmt.Errorf("unknown junction %q", c.J)
 	}
 	branches := c.Branches
 	if len(branches) == 0 {
 		branches = [][]string{{}}
 	}
 	if len(heads) != len(branches) {
-		return nil, nil, fmt.Errorf("case %d: %d heads for %d branches", c.ID, len(heads), len(branches))
+		return nil, fmt.Errorf("case %d: %d heads for %d branches", c.ID, len(heads), len(branches))
 	}
-	graphs := make([]stream.RunnableGraph, len(heads))
-	recs := make([]*sinkRec, len(heads))
 	for i, h := range heads {
 		var err error
 		if len(heads) == 1 {
 			if h, err = chain(h, c.Post, x); err != nil {
-				return nil, nil, err
+				return nil, err
 			}
 		}
 		if h, err = chain(h, branches[i], x); err != nil {
-			return nil, nil, err
+			return nil, err
 		}
-		rec, sk := mkSink(x)
-		g := h.To(sk)
-		if x.Fuse == 0 {
-			g = g.WithFusion(stream.FuseNone)
-		}
-		graphs[i], recs[i] = g, rec
+		heads[i] = h
 	}
-	return graphs, recs, nil
+	return heads, nil
 }
 
 func classify(err error) (int64, string) {
@@ -300,13 +323,19 @@ func classify(err error) (int64, string) {
 
 // runCase materializes the case on sys and waits for every sink.
 func runCase(ctx context.Context, sys actor.ActorSystem, c *streamCase, timeout time.Duration) (*result, []string) {
-	res := &result{streamCase: *c}
-	t0 := time.Now()
-	graphs, recs, err := build(c)
+	heads, err := blueprint(c)
 	if err != nil {
 		fmt.Fprintln(os.Stderr, "build:", err)
 		os.Exit(2)
 	}
+	return runFrom(ctx, sys, c, heads, timeout)
+}
+
+// runFrom materializes the given blueprint (with fresh sinks) on sys and waits for every sink.
+func runFrom(ctx context.Context, sys actor.ActorSystem, c *streamCase, heads []stream.Source[int64], timeout time.Duration) (*result, []string) {
+	res := &result{streamCase: *c}
+	t0 := time.Now()
+	graphs, recs := attach(c, heads)
 	handles := make([]stream.StreamHandle, len(graphs))
 	ids := make([]string, len(graphs))
 	for i, g := range graphs {
@@ -399,6 +428,7 @@ func semMain(casesPath, outPath string, workers int) {
 	defer sys.Stop(context.Background())
 	ctx := context.Background()
 	results := make([]*result, len(cases))
+	extras := make([][]*result, len(cases)) // further repetitions of a case (Reps > 1)
 	var next int64 = -1
 	var firstTimeouts int64
 	var wg sync.WaitGroup
@@ -416,7 +446,37 @@ func semMain(casesPath, outPath string, workers int) {
 				if i >= len(cases) {
 					return
 				}
-				results[i], _ = runCase(ctx, sys, &cases[i], 10*time.Second)
+				c := &cases[i]
+				if c.Reps <= 1 {
+					results[i], _ = runCase(ctx, sys, c, 10*time.Second)
+				} else {
+					// the same blueprint VALUE is materialized Reps times: stage state must not leak between runs
+					heads, err := blueprint(c)
+					if err != nil {
+						fmt.Fprintln(os.Stderr, "build:", err)
+						os.Exit(2)
+					}
+					runs := make([]*result, c.Reps)
+					if c.Par == 1 {
+						var rg sync.WaitGroup
+						for k := range runs {
+							rg.Add(1)
+							go func(k int) {
+								defer rg.Done()
+								runs[k], _ = runFrom(ctx, sys, c, heads, 10*time.Second)
+							}(k)
+						}
+						rg.Wait()
+					} else {
+						for k := range runs {
+							runs[k], _ = runFrom(ctx, sys, c, heads, 10*time.Second)
+						}
+					}
+					for k, r := range runs {
+						r.Run = k + 1
+					}
+					results[i], extras[i] = runs[0], runs[1:]
+				}
 				if results[i].Timeout == 1 {
 					atomic.AddInt64(&firstTimeouts, 1)
 				}
@@ -430,9 +490,18 @@ func semMain(casesPath, outPath string, workers int) {
 		if r != nil {
 			executed = append(executed, r)
 			executedCases = append(executedCases, cases[i])
+			for _, e := range extras[i] {
+				executed = append(executed, e)
+				executedCases = append(executedCases, cases[i])
+			}
 		}
 	}
-	skipped := len(results) - len(executed)
+	skipped := 0
+	for _, r := range results {
+		if r == nil {
+			skipped++
+		}
+	}
 	results, cases = executed, executedCases
 	// a time-out / Run error under load is re-run alone with a long deadline; both attempts are recorded
 	// (the first one marked superseded) so that the monitor sees every real execution
@@ -451,6 +520,7 @@ func semMain(casesPath, outPath string, workers int) {
 			r.Superseded = 1
 			second, _ := runCase(ctx, sys, &cases[i], 30*time.Second)
 			second.Attempt = 2
+			second.Run = r.Run
 			second.First = "timeout"
 			if r.RunErr != "" {
 				second.First = r.RunErr
